@@ -44,6 +44,11 @@
 (* No offset is excluded from the write set.  What the spec does not predict:  *)
 (* the DSP memory written by a DMA transfer, the interpreter's interrupt       *)
 (* latches, the AHBM burst queues, the words inside the audio FIFO.            *)
+(* Two situations have an outcome but are never driven into the real code by  *)
+(* the recorder: a DMA window access while active_channel >= 8 (out "oob":    *)
+(* the code indexes std::array<Channel,8> out of range, a C18 matter) and a   *)
+(* DMA start of more than 4096 elements (does not end in useful time; 32-bit  *)
+(* mode with SIZE0 = 0xFFFF never ends).                                      *)
 EXTENDS Naturals, Sequences, FiniteSets, TLC, Bitwise
 
 CONSTANTS
